@@ -781,6 +781,46 @@ fn dated_hint_year_on_start_only() {
     start_year_hint_body::<0>(false)
 }
 
+// ---- year-less fixed bounds with day offsets: `Dec 24 -2 days-Jan 6 +3 days`, `Jan 2 -5 days-Jan 10` ------------------------
+
+//@H props=C01,C04 tier=thorough kind=bounded cap=2400 mem=medium bound="day offsets within +-10 days on both bounds, no weekday offsets" domain="all year-less (month, day) bounds x all dates 1900..9999, outside the invalid-day region; callees replaced by their contracts"
+#[cfg_attr(kani, kani::proof)]
+#[cfg_attr(kani, kani::unwind(5))]
+#[cfg_attr(kani, kani::stub(opening_hours_syntax::rules::day::DateOffset::apply, date_offset_apply_model))]
+#[cfg_attr(kani, kani::stub(super::valid_ymd_after, valid_ymd_after_model))]
+#[cfg_attr(kani, kani::stub(super::valid_ymd_before, valid_ymd_before_model))]
+#[cfg_attr(kani, kani::stub(super::is_open_from_bounds, is_open_from_bounds_contract))]
+#[cfg_attr(kani, kani::stub(super::next_change_from_bounds, next_change_from_bounds_contract))]
+#[cfg_attr(verif_replay, test)]
+fn dated_filter_fixed_no_year_day_offsets() {
+    let (sm, sd, em, ed) = (any_month(), any_day(), any_month(), any_day());
+    let (so, eo) = (nd::i64(), nd::i64());
+    nd::assume(-10 <= so && so <= 10 && -10 <= eo && eo <= 10);
+    nd::assume(!invalid_day_region(sm, sd, em, ed));
+    nd::assume(!(sm == Month::February && em == Month::February && sd == 29 && ed == 29));
+    let r = ds::MonthdayRange::Date {
+        start: (Date::md(sd, sm), DateOffset { wday_offset: WeekDayOffset::None, day_offset: so }),
+        end: (Date::md(ed, em), DateOffset { wday_offset: WeekDayOffset::None, day_offset: eo }),
+    };
+    let d = any_date();
+    let got = r.filter(d, &ctx());
+    // statement: every day from a shifted start to the next shifted end; the shifted bounds of the years
+    // around the date are the only ones that can reach it when the offsets are small
+    let (mut starts, mut ends) = (Bounds::empty(), Bounds::empty());
+    let mut i = 0;
+    while i < 3 {
+        let y = d.year() - 1 + i as i32;
+        starts.v[i] = valid_ymd_after_model(y, sm as u32, sd as u32) + Duration::days(so);
+        ends.v[i] = valid_ymd_before_model(y, em as u32, ed as u32) + Duration::days(eo);
+        i += 1;
+    }
+    starts.n = 3;
+    ends.n = 3;
+    vpost!("C01.dated.shifted_year_less_range_is_every_day_from_shifted_start_to_next_shifted_end", got == pairing_is_open(d, &starts, &ends));
+    vcover!("dated.offsets.start_shifted_into_the_previous_year_hit", got && sm == Month::January && so < 0 && d.month() == 12);
+    vcover!("dated.offsets.end_shifted_hit", got && eo > 0 && d > valid_ymd_before_model(d.year(), em as u32, ed as u32));
+}
+
 // ---- Easter-based ranges: `easter`, `easter -2 days-easter +1 day` --------------------------------------------------------
 //
 // `easter(year)` has its own contract (a Sunday between Mar 22 and Apr 25 of that year equal to an independent computus:
